@@ -74,6 +74,9 @@ Theorem c19_gulp_cell_value : forall m e, (0 <= m)%Z -> let '(n, q) := frac m e 
   (Z.abs (2 * fixed_int 10 m e * q - 2 * (n * 10 ^ 10)) <= q)%Z.
 Proof. exact (fixed_close 10). Qed.
 
+Theorem c19_gulp_cell_no_blank : forall neg m e, (0 <= m)%Z -> Forall (fun c => cell_char c = true) (fixed 10 neg m e).
+Proof. exact (fixed_chars 10). Qed.
+
 Example c19_example :
   let pots := [{| p_a := 0; p_b := 1; p_hasd := false |}] in
   length (trace (gulp_file pots (3 # 1) 4)) = 4%nat /\ Qeq_bool (r_value (3 # 1) 4 3) (3 # 1) = true.
